@@ -390,6 +390,9 @@ func (conn *Conn) read(ctx *Context, async bool) {
 					return
 				}
 			} else if u.Stream == openStream {
+				// the acknowledgement: whatever follows on this sequence number is a
+				// stream message, even if it arrives before NewStream has resumed
+				u.Stream = streaming
 				call.done()
 			}
 			conn.bufferPool.PutBuffer(ctx.buffer)
